@@ -1,4 +1,4 @@
-import OdfProofs.Package4
+import OdfProofs.Package5
 
 /-!
 # C03 — saving and reopening a document loses nothing, in every packaging
@@ -88,6 +88,19 @@ theorem no_part_lost_or_invented (d : Doc) (hw : WFd d) (rdf : Blob) (hr : RdfOk
 theorem reopen_is_the_document (d : Doc) (hw : WFd d) (rdf : Blob) (hr : RdfOk (d.parse nMeta).2) (n : Nat) :
     (Doc.ofBytes (d.save rdf).2).view n = d.view n := by
   rw [ofBytes_view, save_writes_the_view d hw rdf hr]
+
+/-- **… in every packaging**: reopening what a PRETTY save wrote (zip or folder; `pp` = any pretty serialiser) gives the
+    document back, name for name, the parts that are parsed or standard through the serialiser, every other part as it was -/
+theorem reopen_after_pretty_save (pp : Blob → Blob) (d : Doc) (hw : WFd d) (rdf : Blob) (hr : RdfOk (d.parse nMeta).2) (n : Nat) :
+    (Doc.ofBytes (d.savePretty pp rdf).2).view n =
+      if (look (d.prepared rdf).parsed n).isSome ∨ n ∈ stdParts then (d.view n).map pp else d.view n := by
+  rw [ofBytes_view, savePretty_written pp d rdf hw n, prepared_view_of_ok d rdf hr]
+
+/-- … no part lost, none invented by a pretty save either -/
+theorem pretty_no_part_lost_or_invented (pp : Blob → Blob) (d : Doc) (hw : WFd d) (rdf : Blob) (hr : RdfOk (d.parse nMeta).2) (n : Nat) :
+    (look (d.savePretty pp rdf).2 n).isSome = (d.view n).isSome := by
+  rw [savePretty_written pp d rdf hw n, prepared_view_of_ok d rdf hr]
+  split <;> simp
 
 /-- **an unmodified open / save cycle is the identity on content**, for a file opened by path
     (parts read lazily at save time) as for one read from a buffer -/
